@@ -86,7 +86,7 @@ pub fn run(ctx: &Ctx) {
     ctx.assume("overflow-checks=on release profile: an unchecked overflow panics (caught) instead of wrapping; both forms are violations");
     ctx.assume("reference evaluator (harness/src/model/eval.rs) decides which exact results are out of range");
 
-    super::regressions::run(ctx, "C01", |j| EvalCase::from_json(j).map(|c| check(&c)));
+    super::regressions::run(ctx, "C01", replay);
 
     // (1) depth-1 exhaustive over the boundary pool
     let cells = Cells::new(pool::boundary());
